@@ -7,6 +7,8 @@ use gamedig::{
 };
 
 mod error;
+#[cfg(gamedig_verif)]
+mod verif_hook;
 
 use self::error::{Error, Result};
 
@@ -151,6 +153,8 @@ fn resolve_ip_or_domain<T: AsRef<str>>(host: T, extra_options: &mut Option<Extra
     if let Ok(parsed_ip) = host_str.parse() {
         Ok(parsed_ip)
     } else {
+        #[cfg(gamedig_verif)]
+        verif_hook::note_name_branch();
         set_hostname_if_missing(host_str, extra_options);
         resolve_domain(host_str)
     }
@@ -488,10 +492,21 @@ fn main() -> Result<()> {
             timeout_settings,
             extra_options,
         } => {
+            #[cfg(all(gamedig_verif, feature = "json", feature = "xml", feature = "bson"))]
+            if verif_hook::print_requested() {
+                return verif_hook::print_value(format);
+            }
+
             // Process the query command
             let game = find_game(&game)?;
             let mut extra_options = extra_options;
             let ip = resolve_ip_or_domain(&ip, &mut extra_options)?;
+
+            #[cfg(gamedig_verif)]
+            if verif_hook::plan_requested() {
+                verif_hook::print_plan(game, &ip, port, &format, &output_mode, &timeout_settings, &extra_options);
+                return Ok(());
+            }
 
             #[cfg(feature = "packet_capture")]
             gamedig::capture::setup_capture(capture);
